@@ -36,6 +36,10 @@ func runC03(c *Ctx) {
 	histAuditKeys(c, "R7", r)
 	c.Rule("R8", "audit-path wire codec: writer and reader agree on separator, order and widths (index at 64 bits)", 3)
 	histAuditCodec(c, "R8")
+	c.Rule("R9", "a missing audit-path entry aborts the recomputation; ProveConsistency prunes with the consistency traversal only; the client verifies the proof unmodified", 4)
+	verifierMissAborts(c, "R9", r)
+	proverUsesItsTraversal(c, "R9", r)
+	proofNotModifiedBeforeVerify(c, "R9", []*ssa.Function{c.P.MustMethod("client", "HTTPClient", "IncrementalAutoVerify"), c.P.MustMethod("client", "HTTPClient", "IncrementalVerify")})
 }
 
 func c03R1(c *Ctx, r *histRoles) {
